@@ -13,12 +13,12 @@ import (
 
 func init() {
 	simrt.Register(&simrt.Scenario{
-		Prop: "C01", Name: "bidir-lossy", Count: tiered(8000, 120000),
+		Prop: "C01", Name: "bidir-lossy", Count: tiered(8000, 960000),
 		Run: func(rc *simrt.RunCtx) { c01Run(rc, true) }, MaxOps: 3 << 20, Horizon: 8 * time.Hour,
 		Doc: "client+server GoBackNConn, handshake included, concurrent traffic in both directions over a lossy/duplicating/delaying FIFO transport; online per-direction prefix oracle",
 	})
 	simrt.Register(&simrt.Scenario{
-		Prop: "C01", Name: "bidir-clean", Count: tiered(1000, 10000),
+		Prop: "C01", Name: "bidir-clean", Count: tiered(1000, 80000),
 		Run: func(rc *simrt.RunCtx) { c01Run(rc, false) }, MaxOps: 3 << 20, Horizon: 8 * time.Hour,
 		Doc: "same workload over a fault-free transport (separate sub-batch so that fault handling can hide no ordinary bug)",
 	})
